@@ -46,6 +46,8 @@ def body(chk):
     eqs = ('rho', 'rho_u', 'rho_v', 'nu') if chk.tier == 'quick' else ('rho', 'rho_u', 'rho_v', 'nu', 'rho_e')
     chk.bounds['fans_wall_bounded_equations'] = list(eqs)
     c05_fans.wall_bounded(chk, w, val, eqs=eqs)
+    import c09
+    c09.add_type_purity(chk, ['rans_sa', 'fans_sa'])
     chk.solve_all()
     pde.validate_terms(chk, val, ranges={'eta': (Fraction(1, 5), Fraction(4, 5))}, npoints=1 if chk.tier == 'quick' else 3)
 
